@@ -383,3 +383,156 @@ func dkgMsgComplaint(complainee int) []byte {
 func dkgMsgAnswer(complainer int, s *big.Int) []byte {
 	return append([]byte{dkgTagAnswer, byte(complainer)}, dkgScalarBytes(s)...)
 }
+
+// ---- API calls on a real instance and their observation ----
+type dkgCall struct {
+	Op   string `json:"op"` // start | timeout | end | running | bcast | priv | force
+	Seed string `json:"seed,omitempty"`
+	Orig int    `json:"orig,omitempty"`
+	Msg  string `json:"msg,omitempty"`
+}
+
+type dkgObs struct {
+	Class   string         `json:"class"` // ok | invalid-input | state | failure | keys | panic | true | false
+	Running bool           `json:"running"`
+	Events  []dkgEvent     `json:"events,omitempty"`
+	Keys    map[string]any `json:"keys,omitempty"`
+	keys    [3]any
+}
+
+func dkgExec(d crypto.DKGState, p *dkgProc, c dkgCall) (o dkgObs) {
+	var err error
+	var x crypto.PrivateKey
+	var Y crypto.PublicKey
+	var ys []crypto.PublicKey
+	isEnd := false
+	panicked, _ := catch(func() {
+		switch c.Op {
+		case "start":
+			err = d.Start(unhx(c.Seed))
+		case "timeout":
+			err = d.NextTimeout()
+		case "end":
+			isEnd = true
+			x, Y, ys, err = d.End()
+		case "running":
+			o.Class = fmt.Sprint(d.Running())
+		case "bcast":
+			err = d.HandleBroadcastMsg(c.Orig, unhx(c.Msg))
+		case "priv":
+			err = d.HandlePrivateMsg(c.Orig, unhx(c.Msg))
+		case "force":
+			err = d.ForceDisqualify(c.Orig)
+		}
+	})
+	o.Events = p.take()
+	if panicked {
+		o.Class = "panic"
+		return
+	}
+	if o.Class == "" {
+		o.Class = dkgErrClass(err)
+		if isEnd && err == nil {
+			o.Class = "keys"
+			o.keys = [3]any{x, Y, ys}
+		}
+	}
+	o.Running = d.Running()
+	return
+}
+
+func dkgRefused(o dkgObs) bool { return o.Class == "state" || o.Class == "invalid-input" }
+
+func dkgSameObs(a, b dkgObs) bool {
+	if a.Class != b.Class || a.Running != b.Running || len(a.Events) != len(b.Events) {
+		return false
+	}
+	for i := range a.Events {
+		if a.Events[i] != b.Events[i] {
+			return false
+		}
+	}
+	if a.Class == "keys" {
+		ax, bx := a.keys[0].(crypto.PrivateKey), b.keys[0].(crypto.PrivateKey)
+		aY, bY := a.keys[1].(crypto.PublicKey), b.keys[1].(crypto.PublicKey)
+		ay, by := a.keys[2].([]crypto.PublicKey), b.keys[2].([]crypto.PublicKey)
+		if !ax.Equals(bx) || !aY.Equals(bY) || len(ay) != len(by) {
+			return false
+		}
+		for i := range ay {
+			if !ay[i].Equals(by[i]) {
+				return false
+			}
+		}
+	}
+	return true
+}
+
+
+// runs one call on the instance; returns the Coq term "(call, mkObs result running events)"
+// and the observation.  known: polynomials whose subset sums End's public keys may be.
+func dkgStep(d crypto.DKGState, p *dkgProc, call dkgCall, t int, known [][]*big.Int) (string, dkgObs, error) {
+	var ct string
+	switch call.Op {
+	case "start":
+		seed := unhx(call.Seed)
+		if len(seed) < crypto.KeyGenSeedMinLen {
+			ct = "CStart SeedShort"
+		} else {
+			a, err := dkgPolyOfSeed(seed, t)
+			if err != nil {
+				return "", dkgObs{}, err
+			}
+			ct = "CStart (SeedOk " + cqZlist(a) + ")"
+		}
+	case "timeout":
+		ct = "CNextTimeout"
+	case "end":
+		ct = "CEnd"
+	case "running":
+		ct = "CRunning"
+	case "bcast", "priv":
+		m, err := dkgAbsMsg(unhx(call.Msg), t)
+		if err != nil {
+			return "", dkgObs{}, err
+		}
+		if call.Op == "bcast" {
+			ct = fmt.Sprintf("CBroadcast %s %s", cqZi(call.Orig), m)
+		} else {
+			ct = fmt.Sprintf("CPrivate %s %s", cqZi(call.Orig), m)
+		}
+	case "force":
+		ct = "CForce " + cqZi(call.Orig)
+	default:
+		return "", dkgObs{}, fmt.Errorf("unknown op %q", call.Op)
+	}
+	o := dkgExec(d, p, call)
+	var rt string
+	switch o.Class {
+	case "ok":
+		rt = "ROk"
+	case "invalid-input":
+		rt = "RInvalidInput"
+	case "state":
+		rt = "RStateErr"
+	case "failure":
+		rt = "RFailure"
+	case "panic":
+		rt = "RPanic"
+	case "true", "false":
+		rt = "(RBool " + o.Class + ")"
+	case "keys":
+		tm, ko, err := dkgKeysTerm(o.keys[0].(crypto.PrivateKey), o.keys[1].(crypto.PublicKey), o.keys[2].([]crypto.PublicKey), known)
+		if err != nil {
+			return "", dkgObs{}, err
+		}
+		rt, o.Keys = tm, ko
+	default:
+		rt = "RUndef" // an error of no documented class
+	}
+	evt, err := dkgAbsEvents(o.Events, t)
+	if err != nil {
+		return "", dkgObs{}, err
+	}
+	return fmt.Sprintf("(%s, mkObs %s %s %s)", ct, rt, cqbool(o.Running), evt), o, nil
+}
